@@ -30,8 +30,14 @@ RULE = (
     "no callback starts while a callback of ANOTHER thread is in flight on the same probe (same-thread re-entrancy is not "
     "counted); the calls in entry order match N*(E|C)? (both reported under the one signature 'unserialized|<operator>': "
     "behind AutoDetachObserver a grammar violation can only arise from two threads inside the downstream observer at "
-    "once); no deadlock; no escaped exception (signature names the file:function that raised). Nothing is demanded about "
-    "WHICH values arrive. Non-trivial: in some explored run a thread executed a step inside its own emission (or a "
+    "once); no deadlock; no escaped exception (signature names the file:function that raised). For the two time-window "
+    "operators additionally (statement of C18, judged from the global order of probe calls and their fake-clock times, no "
+    "tie rule assumed): every source element goes to exactly the windows open when it arrives, once each, with no "
+    "open/close in the middle, in arrival order ('window-content'); a window is closed only by the source's terminal "
+    "(with that kind), by the on_next that delivered its count-th element, or by a timer exactly one timespan after it "
+    "was opened; window_with_time opens window j exactly j*timeshift after the first, window_with_time_or_count opens "
+    "the next window the instant the previous one closed and never exceeds count; no window stays open after the "
+    "terminal ('window-rule'). For the other combinators nothing is demanded about WHICH values arrive. Non-trivial: in some explored run a thread executed a step inside its own emission (or a "
     "timer thread ran operator code) strictly between the entry and the return of another source's emission. "
     "Distinct = distinct case JSON."
 )
@@ -41,7 +47,8 @@ ASSUMPTIONS = [
     "subscription happens before the run (window operators: at the start of the source thread, because subscribing starts a timer thread)",
     "CPython GIL-build atomicity: a source line is the unit of interleaving; locks/timers/threads are the cooperative replacements of vlib/det.py",
     "bounds: <=3 sources, <=3 elements per source, exhaustive <=1 preemption everywhere and <=2 on the listed programs, <=3 drawn",
-    "lost or misrouted values (e.g. an inner source left in merge(max_concurrent)'s queue) are outside this property's statement and not judged",
+    "lost or misrouted values of the non-window combinators (e.g. an inner source left in merge(max_concurrent)'s queue) are outside this property's statement and not judged",
+    "window timing equalities rely on Engine DET's clock: it only advances when no thread is runnable, the source never sleeps inside an emission and probes never sleep, so a timer action runs at exactly its due instant",
 ]
 TIMEOUT = {"quick": 300, "thorough": 3600}
 
@@ -201,7 +208,143 @@ def _judge(ctx, res):
             # every probe sits behind an AutoDetachObserver, which swallows a SEQUENTIAL second terminal / late on_next; a
             # grammar violation at the probe therefore means two threads were inside that gate at once: same root cause
             return "unserialized", f"grammar: probe {p.name} saw {p.kinds()!r} (values {[e[1] for e in p.events]}, tids {[e[2] for e in p.events]})"
+    if ctx["case"]["op"] in WINDOW_FAMILY:
+        return _judge_windows(ctx, res)
     return None
+
+
+SPAN_US = 1_000_000
+
+
+def _judge_windows(ctx, res):
+    """Content and rule clauses for the two time-window operators under threads (statement of C18: every source element is
+    delivered to exactly the windows open when it arrives, in arrival order; windows open and close when their rule
+    dictates; all open windows end with the source's terminal kind).  Everything is read off the global order of probe
+    calls (det.log) and the fake-clock time of each call; because the operator must do all of this under one lock, the
+    order in which a timer and a racing emission got the lock is simply whatever the log shows - no tie rule is assumed.
+    Rules: a window may only be closed (a) by the source's terminal, with that kind, (b) window_with_time_or_count: by
+    the source's on_next that delivered its count-th element, (c) otherwise by a timer exactly `timespan` after it was
+    opened.  window_with_time opens window j exactly j*timeshift after the first; window_with_time_or_count opens the
+    next window at the instant the previous one closed and never puts more than `count` elements into one."""
+    case = ctx["case"]
+    op, prog = case["op"], case["srcs"][0]
+    outer = ctx["probes"][0]
+    wins = outer.children
+    shift_us = int(round((case.get("shift") or 1.0) * 1e6)) if op == "window_time" else None
+    count = case.get("n")
+    wcl = ctx.setdefault("wclasses", set())
+    open_set, opened, closed = [], {}, {}  # k -> (pos, time) ; k -> (pos, time, kind, tid, during_terminal, n_at_close)
+    got = {}  # value -> [(pos, k)]
+    marks = {}  # pos -> open/close marker, to test contiguity of one element's deliveries
+    emitting = None
+    k_next = 0
+    pos = 0
+    for _, tid, pl in res.events:
+        if not isinstance(pl, tuple) or not pl:
+            continue
+        if pl[0] == "emit":
+            emitting = prog[pl[2]]
+        elif pl[0] == "emit-ret":
+            emitting = None
+        if pl[0] != "cb":
+            continue
+        pos += 1
+        name, kind, idx = pl[1], pl[2], pl[3]
+        if name == "out":
+            if kind == "N":
+                opened[k_next] = (pos, outer.times[idx])
+                open_set.append(k_next)
+                marks[pos] = "open"
+                k_next += 1
+            continue
+        k = int(name[3:])
+        w = wins[k]
+        if kind == "N":
+            v = w.events[idx][1]
+            if k not in open_set:
+                return "window-content", f"element {v} delivered to window {k} which is not open (open: {open_set})"
+            got.setdefault(v, []).append((pos, k, list(open_set)))
+        else:
+            if k in open_set:
+                open_set.remove(k)
+            n_at = sum(1 for e in w.events[:idx] if e[0] == "N")
+            closed[k] = (pos, w.times[idx], kind, tid, tid == 0 and emitting in ("C", "E"), n_at, tid == 0 and emitting == "N")
+            marks[pos] = "close"
+    desc = f"windows {[(k, w.kinds(), [e[1] for e in w.events if e[0] == 'N']) for k, w in enumerate(wins)]} outer {outer.kinds()!r} program {prog!r}"
+    # ---- content: exactly the windows open at arrival, once each, contiguous, arrival order
+    emitted = [j for j, tok in enumerate(prog) if tok == "N"]
+    always_open = op == "window_time_count" or shift_us <= SPAN_US
+    for v in emitted:
+        d = got.get(v)
+        if not d:
+            src_done = any(pl == ("emit-ret", 0, v) for _, _, pl in res.events)
+            if src_done and always_open and res.complete and not any(c[2] == "E" for c in closed.values()):
+                return "window-content", f"element {v} was delivered to no window although one must be open; {desc}"
+            if src_done:
+                wcl.add("element-in-gap")
+            continue
+        ks = [k for _, k, _ in d]
+        first, last = d[0][0], d[-1][0]
+        if sorted(ks) != sorted(d[0][2]) or len(set(ks)) != len(ks):
+            return "window-content", f"element {v} went to windows {ks} but the windows open when it arrived were {d[0][2]}; {desc}"
+        if any(first < p < last for p in marks):
+            return "window-content", f"a window was opened/closed in the middle of the delivery of element {v}; {desc}"
+        if len(ks) > 1:
+            wcl.add("element-in-2-windows")
+    for k, w in enumerate(wins):
+        vals = [e[1] for e in w.events if e[0] == "N"]
+        if vals != sorted(vals):
+            return "window-content", f"window {k} received {vals}: not in arrival order; {desc}"
+        if count is not None and len(vals) > count:
+            return "window-rule", f"window {k} holds {len(vals)} > count={count} elements; {desc}"
+    # ---- rules
+    term = outer.kinds()[-1:] if outer.kinds()[-1:] in ("C", "E") else None
+    for k in sorted(opened):
+        o_pos, o_time = opened[k]
+        if op == "window_time" and o_time - opened[0][1] != k * shift_us:
+            return "window-rule", f"window {k} opened at +{(o_time - opened[0][1]) / 1e6}s, rule says +{k * shift_us / 1e6}s; {desc}"
+        if op == "window_time_count" and k > 0 and k - 1 in closed and (closed[k - 1][1] != o_time or closed[k - 1][0] != o_pos - 1):
+            return "window-rule", f"window {k} was not opened at the instant window {k - 1} closed; {desc}"
+        if k not in closed:
+            if res.complete and term is not None and k < len(wins):
+                return "window-rule", f"window {k} still open after the source terminated with {term}; {desc}"
+            continue
+        c_pos, c_time, kind, tid, by_terminal, n_at, by_next = closed[k]
+        age = c_time - o_time
+        if by_terminal:
+            wcl.add("closed-by-terminal")
+            if kind != {"C": "C", "E": "E"}[prog[-1]]:
+                return "window-rule", f"window {k} ended with {kind} but the source terminated with {prog[-1]}; {desc}"
+        elif op == "window_time_count" and by_next and n_at == count:
+            wcl.add("closed-by-count")
+            if _timer_ran_between(ctx, res, c_pos):
+                wcl.add("timer-thread-ran-during-count-close")
+        else:
+            wcl.add("closed-by-timer")
+            if kind != "C" or age != SPAN_US or tid == 0:
+                return "window-rule", (
+                    f"window {k} was closed ({kind}, by thread {tid}) {age / 1e6}s after it was opened holding {n_at} element(s): "
+                    f"neither its timespan (1.0s) nor its count ({count}) nor the source's terminal dictates that; {desc}"
+                )
+    return None
+
+
+def _timer_ran_between(ctx, res, c_pos):
+    """True if a timer thread executed operator/lock steps while the source was inside the emission that closed a window by count
+    (the situation in which a timer that has already fired must find out that its window is gone)."""
+    pos = 0
+    start = None
+    for step, tid, pl in res.events:
+        if isinstance(pl, tuple) and pl and pl[0] == "emit" and tid == 0:
+            start = step - 1
+        if isinstance(pl, tuple) and pl and pl[0] == "cb":
+            pos += 1
+            if pos == c_pos:
+                break
+    if start is None:
+        return False
+    end = next((st - 1 for st, tid, pl in res.events if st - 1 >= start and tid == 0 and isinstance(pl, tuple) and pl and pl[0] == "emit-ret"), res.steps)
+    return any(res.owners[s] >= ctx["nprog"] and res.labels[s] not in ("start", "event-wait") for s in range(max(start, 0), min(end, res.steps)))
 
 
 def _nontrivial(ctx, res):
@@ -242,6 +385,7 @@ def _classes(ctx, res):
         cl.append("horizon")
     if res.nthreads > ctx["nprog"]:
         cl.append("timer-threads")
+    cl += sorted("win:" + c for c in ctx.get("wclasses", ()))
     return cl
 
 
@@ -296,6 +440,43 @@ def _windows(timed, shifts=(None, 0.5), ns=(1, 2)):
             yield "window_time_count", [prog], {"n": n}
 
 
+# timed programs aimed at the rules: a sleep right after a count-close (a timer that fired while the source held the lock
+# gets to run next), count-close and timer due at the same instant, gapped windows (timeshift > timespan), overlapping ones
+_WINDOW_EXTRA = [
+    ("window_time_count", "NSNsNC", {"n": 2}),
+    ("window_time_count", "SNsNC", {"n": 1}),
+    ("window_time_count", "NSNsC", {"n": 2}),
+    ("window_time_count", "NNsNSNC", {"n": 2}),
+    ("window_time", "NSNSNC", {"shift": 2.0}),
+    ("window_time", "sNSsNC", {"shift": 0.5}),
+]
+_WINDOW_EXTRA_THOROUGH = [
+    ("window_time_count", "SNsC", {"n": 1}),
+    ("window_time_count", "NNNsNSE", {"n": 3}),
+    ("window_time_count", "sNsNsNSC", {"n": 2}),
+    ("window_time", "NsNSNsNC", {"shift": 2.0}),
+    ("window_time", "SNSNE", {"shift": 2.0}),
+    ("window_time", "NsNsNsNC", {"shift": 0.5}),
+]
+
+
+def _window_extra(items):
+    for op, prog, extra in items:
+        yield op, [prog], dict(extra)
+
+
+def _nested3(outers=(("IIIE", 3), ("IIIC", 0)), forms=("merge_all", "merge_max"), ns=(2,)):
+    """three inner sources + the outer one = four racing source threads"""
+    for op in forms:
+        for srcs in _TRIPLES:
+            for outer, pre in outers:
+                if op == "merge_max":
+                    for n in ns:
+                        yield op, srcs, {"outer": outer, "pre": pre, "n": n}
+                else:
+                    yield op, srcs, {"outer": outer, "pre": pre}
+
+
 def _enum_k1(tier):
     """(trace focus?, K, programs).  quick stays within ~150 CPU-seconds; thorough uses the full alphabets and K=2."""
     A5, A4, A3, A2 = ["C", "E", "NC", "NE", "NNC"], ["C", "NC", "NE", "NNC"], ["C", "NC", "NE"], ["NC", "NE"]
@@ -305,6 +486,8 @@ def _enum_k1(tier):
             (True, 1, _nested(A3, forms=("merge_all", "merge_max"), outers=_OUTERS[:2])),
             (True, 1, _nested(A2, forms=("flat_map",), outers=_OUTERS[:2])),
             (True, 1, _windows(_TIMED[:4], ns=(2,))),
+            (True, 1, _window_extra(_WINDOW_EXTRA)),
+            (True, 1, _nested3(outers=(("IIIE", 3),), forms=("merge_all",))),
             (False, 1, _plain(A2, triples=False)),
             (False, 1, _nested(A2, outers=_OUTERS[:1], ns=(1,))),
             (False, 1, _windows(_TIMED[:1], shifts=(None,), ns=(2,))),
@@ -313,8 +496,12 @@ def _enum_k1(tier):
         plan = [
             (True, 1, _plain(A5)),
             (True, 1, _nested(A5)),
-            (True, 1, _windows(_TIMED)),
+            (True, 1, _windows(_TIMED, shifts=(None, 0.5, 2.0), ns=(1, 2, 3))),
+            (True, 1, _window_extra(_WINDOW_EXTRA + _WINDOW_EXTRA_THOROUGH)),
             (True, 2, _windows(_TIMED[:3], ns=(2,))),
+            (True, 2, _window_extra(_WINDOW_EXTRA[:3])),
+            (True, 1, _nested3(forms=MERGE_ALL_FAMILY, ns=(1, 2))),
+            (False, 1, _window_extra(_WINDOW_EXTRA)),
             (False, 1, _plain(A4)),
             (False, 1, _nested(A3)),
             (False, 1, _windows(_TIMED[:5])),
